@@ -54,6 +54,24 @@ def run(index, rep):
     rep.guard(delay_seaweed, index, rep)
     rep.guard(growth, index, rep)
     rep.guard(unitlit, index, rep)
+    rep.guard(state8, index, rep)
+    rep.guard(ramp_area, index, rep)
+
+
+def ramp_area(index, rep):
+    """expanded cropland: the multiplier on the grown series is 1 until the first harvest, then ramps linearly to the configured ratio,
+    reached after the configured number of years, and stays there (shared evaluation with C09.RELOC)"""
+    from .c09 import expanded_area
+    fn = index.flat_func(OC, "OutdoorCrops.assign_increase_from_increased_cultivated_area")
+    expanded_area(index, rep, fn, "C08.RAMP")
+
+
+def state8(index, rep):
+    """a series is a function of this run's inputs only: the supply modules keep nothing between calls"""
+    from .memo import hidden_state_rules
+    files = [f"src/food_system/{m}.py" for m in ("outdoor_crops", "greenhouses", "seafood", "meat_and_dairy", "feed_and_biofuels", "methane_scp",
+                                                  "cellulosic_sugar", "seaweed", "stored_food")]
+    hidden_state_rules(index, rep, "C08.STATE", files, "a supply series handed to the optimiser")
 
 
 def K_(path, idx=None):
